@@ -101,6 +101,12 @@ def check_case(case) -> Result:
                 sig = 'C07/reparse/empty-interval-list-instead-of-none'
             r.fail('the peptide string re-parses to an equal annotation', sig, span=[a, b], peptide=st_, **ctx)
             break
+        # "describe the same peptides": the annotation and its string also agree on whether the peptide is modified at all
+        if bool(an.has_mods()) != bool(back.has_mods()) or bool(pt.is_modified(an)) != bool(pt.is_modified(st_)):
+            r.fail('string and annotation return types describe the same peptide (modified or not)',
+                   'C07/reparse/annotation-says-modified-string-does-not', span=[a, b], peptide=st_, annotation_has_mods=bool(an.has_mods()),
+                   reparsed_has_mods=bool(back.has_mods()), **ctx)
+            break
         if keys is CMP and b > a:
             found = pt.find_subsequence_indices(prot, an)
             if a not in found:
